@@ -211,6 +211,31 @@ def run_history(cfg, history, col, case_base, check=True):
                 model[name] = CONTENTS[op[2]]
                 mimes.setdefault(name, set()).add(op[3])
                 mimes[(name, "last")] = op[3]
+            # the writing handle itself must see the latest bytes after
+            # every step (an accessor object may keep state between calls)
+            if check or True:
+                for nm2 in ([name] + [k for k in model if k != name]):
+                    try:
+                        if isinstance(nm2, tuple):
+                            got = acc.fetch_chunk(KEY, nm2[1:])
+                        else:
+                            got = acc.fetch_file(nm2)
+                        gerr = None
+                    except (DataAccessError, OSError) as exc:
+                        got, gerr = None, exc
+                    if nm2 in model and (gerr is not None
+                                         or bytes(got) != model[nm2]):
+                        c = dict(case_base, history=history[:n + 1],
+                                 reader="same-handle",
+                                 name=list(nm2) if isinstance(nm2, tuple)
+                                 else nm2)
+                        col.violation(
+                            "C12/fetch/writing-handle-does-not-see-the-"
+                            "latest-bytes/" + _mime_tag(mimes, nm2, op), c,
+                            model[nm2].hex()[:60],
+                            repr(gerr)[:200] if gerr else
+                            bytes(got).hex()[:60])
+                        return None
         t = tree(d)
         if check:
             observe(cfg, d, model, mimes, col, dict(case_base,
